@@ -65,6 +65,10 @@ extern int mpt_convert_string(const char *from, MPT_TYPE(type) type, void *dest)
 	}
 	if (type != 's') {
 		const char *txt = from;
+		/* number formats are scalar codes, mpt_convert_number() takes a plain int */
+		if (!MPT_type_isScalar(type)) {
+			return MPT_ERROR(BadType);
+		}
 		if (!txt || !*txt) {
 			return 0;
 		}
